@@ -58,7 +58,25 @@ class Scenario:
         else:
             raise ValueError(k)
         self.src = src
-        self.probe = aprobe.Probe(src, self.log, mode=cfg.get("cons", "future"))
+        tail = src
+        if cfg.get("via") == "map_async":
+            # an asynchronous node between the source and the consumer: stopping *it* stops the source as well -- and an element
+            # of the cycle in progress that reaches it afterwards must not start the source again
+            async def ident(x):
+                return x
+            if cfg.get("via_stop_at") is not None:
+                # a sibling consumer, served before the map_async node, stops the pipeline through that node when it sees the
+                # k-th record: the record itself, and the rest of the batch, then reach a map_async node that has been stopped
+                seen = [0]
+
+                def stopper(x, seen=seen):
+                    seen[0] += 1
+                    if seen[0] == cfg["via_stop_at"]:
+                        self.log.add("stop")
+                        self.via.stop()
+                self._stopper = src.sink(stopper)
+            tail = self.via = src.map_async(ident)
+        self.probe = aprobe.Probe(tail, self.log, mode=cfg.get("cons", "future"))
         if cfg.get("stop_at"):
             # the consumer itself stops the source when it sees a given item (a stop between two items of a
             # fully synchronous pipeline, where the driver cannot get in)
@@ -82,6 +100,9 @@ class Scenario:
         elif c == "T":
             log.add("stop")
             loop.do(self.src.stop)
+        elif c == "M":
+            log.add("stop")
+            loop.do(self.via.stop)
         elif c == "d":
             if log.pending:
                 loop.do(aprobe.finish_delivery, log, min(log.pending))
